@@ -2246,17 +2246,386 @@ theorem cell_volume_pos (b0 b1 b2 b3 b4 b5 b6 b7 : Bool) (hmix : (b0 || b1 || b2
 /-- position of the vertex on lattice edge `l` under a global parameter assignment (0 = low end, 1 = high end) -/
 noncomputable def posL (τ : LEdge → ℝ) (l : LEdge) : V3 ℝ := V3.Add (ptR l.1) (V3.Scale (ptR (unit l.2)) (τ l))
 
-/-- the full "enclosed volume is positive" statement in lattice-edge ids — NOT proved.  Proved towards it:
-    `cell_volume_nonneg` (every cell solid has volume ≥ 0 for all parameters), `Tab.table_cell_volume_positive_corner`
-    (some corner of the parameter cube has positive volume unless the cell is all-outside), `emitted_triangle_outward`,
-    `volume_translation_invariant`.  Missing: (i) the strict version of `cell_volume_nonneg` in the open cube (needs the
-    converse corner correspondence), (ii) the sum over the box: the caps of neighbouring cells on their shared face cancel
-    (`table_face_canonical` gives the segments; the edge pieces depend only on the face bits), caps vanish on the boundary
-    layer, and each cell's solid — closed by `polyTris` — may be translated to its own low corner. -/
+/-- the full "enclosed volume is positive" statement in lattice-edge ids: box of cells with outside boundary layer, any sign
+    pattern, every vertex strictly inside its lattice edge, non-empty surface ⇒ positive signed volume.
+    PROVED below as `march_volume_positive` (per-cell solids ≥ 0 / > 0, closed cell polyhedra translated to their own low
+    corners, caps of neighbouring cells cancelling, caps vanishing on the boundary layer). -/
 def C09_volume_positive_full : Prop :=
   ∀ (s : Pt → Bool) (o : Pt) (nx ny nz : Nat), BoundaryOutside s o nx ny nz →
     ∀ τ : LEdge → ℝ, (∀ l, 0 < τ l ∧ τ l < 1) → boxTris s o nx ny nz ≠ [] →
       0 < volume6 (posL τ) ⟨0, 0, 0⟩ (boxTris s o nx ny nz)
+
+/-! ## 14. The sum over the box: the marched surface encloses positive volume -/
+
+instance instLawfulBEqSum_aux {α β : Type} [BEq α] [BEq β] [LawfulBEq α] [LawfulBEq β] : LawfulBEq (α ⊕ β) where
+  eq_of_beq := by
+    intro a b h
+    cases a <;> cases b <;> first | (simp only [Sum.inl.injEq, Sum.inr.injEq]; exact eq_of_beq h) | (cases h)
+  rfl := by
+    intro a
+    cases a with
+    | inl x => show (x == x) = true; exact beq_self_eq_true x
+    | inr x => show (x == x) = true; exact beq_self_eq_true x
+
+section boxvol
+variable (s : Pt → Bool) (τ : LEdge → ℝ)
+
+/-- position of a global vertex: the vertex of a lattice edge, or a lattice point -/
+noncomputable def gpos : RV → V3 ℝ
+  | .inl l => posL τ l
+  | .inr c => ptR c
+
+/-- global vertex of polyhedron vertex `id` of the cell at `p` -/
+def gid (p : Pt) (id : Nat) : RV := shiftRV p (rid id)
+def gidTri (p : Pt) (t : Nat × Nat × Nat) : RV × RV × RV := (gid p t.1, gid p t.2.1, gid p t.2.2)
+
+/-- the cell's view of the global parameters -/
+noncomputable def localPar (p : Pt) : Nat → ℝ := fun e => τ (shiftL p (edgeRel e))
+
+/-- Σ det over a list of global triangles (six times their signed volume against the origin) -/
+noncomputable def detSum (T : List (RV × RV × RV)) : ℝ :=
+  (T.map fun t => det3 (gpos τ t.1) (gpos τ t.2.1) (gpos τ t.2.2)).sum
+
+theorem ptR_padd_aux (p q : Pt) : ptR (padd p q) = V3.Add (ptR p) (ptR q) := by
+  simp only [ptR, padd, V3.Add, V3.mk.injEq]; refine ⟨?_, ?_, ?_⟩ <;> push_cast <;> ring
+
+theorem gpos_gid_aux (p : Pt) (id : Nat) : gpos τ (gid p id) = V3.Add (ptR p) (vposR (localPar τ p) id) := by
+  unfold gid rid vposR
+  by_cases h : id < 12
+  · simp only [h, if_true, shiftRV, gpos, posL, shiftL, localPar, ptR_padd_aux]
+    simp only [V3.Add, V3.Scale, V3.mk.injEq]; refine ⟨?_, ?_, ?_⟩ <;> ring
+  · simp only [h, if_false, shiftRV, gpos, ptR_padd_aux]
+
+theorem detSum_append_aux (A B : List (RV × RV × RV)) : detSum τ (A ++ B) = detSum τ A + detSum τ B := by
+  simp [detSum, List.map_append, List.sum_append]
+
+theorem detSum_perm_aux {A B : List (RV × RV × RV)} (h : A.Perm B) : detSum τ A = detSum τ B := by
+  unfold detSum; exact (h.map _).sum_eq
+
+theorem det3_flip_aux (u v w : V3 ℝ) : det3 u w v = - det3 u v w := by
+  simp only [det3, V3.Dot, V3.Cross]; ring
+
+theorem detSum_flip_aux (A : List (RV × RV × RV)) : detSum τ (A.map flipTri) = - detSum τ A := by
+  unfold detSum
+  rw [List.map_map, ← sum_map_neg_aux]
+  congr 1
+  apply List.map_congr_left
+  intro t _
+  simp only [Function.comp, flipTri]
+  exact det3_flip_aux _ _ _
+
+/-- the closed cell polyhedron, in global coordinates, has the volume of its local copy -/
+theorem cell_poly_sum_aux (p : Pt) (b0 b1 b2 b3 b4 b5 b6 b7 : Bool) :
+    detSum τ ((polyTris (bits8 b0 b1 b2 b3 b4 b5 b6 b7)).map (gidTri p)) =
+      vol6R (polyTris (bits8 b0 b1 b2 b3 b4 b5 b6 b7)) (localPar τ p) := by
+  have inv := volume_translation_invariant (fun id => gpos τ (gid p id)) (polyTris (bits8 b0 b1 b2 b3 b4 b5 b6 b7))
+    (poly_closed b0 b1 b2 b3 b4 b5 b6 b7) (ptR p)
+  have hsub : ∀ v : V3 ℝ, V3.Sub (V3.Add (ptR p) v) (ptR p) = v := by
+    intro v; cases v; simp [V3.Sub, V3.Add]
+  have hz : ∀ v : V3 ℝ, V3.Sub v ⟨0, 0, 0⟩ = v := by intro v; cases v; simp [V3.Sub]
+  simp only [volume6, gpos_gid_aux, hsub] at inv
+  simp only [detSum, List.map_map, vol6R]
+  rw [inv]
+  congr 1
+  apply List.map_congr_left
+  intro t _
+  simp only [Function.comp, gidTri, gpos_gid_aux, hz]
+
+/-- canonical-cap sum of the lattice face ⟂`a` with lower corner `q` -/
+noncomputable def Kap (a : Nat) (q : Pt) : ℝ := detSum τ ((capCanon a (latticeFaceBits s q a)).map (shiftTri q))
+
+theorem shiftRV_shiftRV_aux (p q : Pt) (x : RV) : shiftRV p (shiftRV q x) = shiftRV (padd p q) x := by
+  cases x with
+  | inl l => simp [shiftRV, shiftL, padd_assoc_aux]
+  | inr c => simp [shiftRV, padd_assoc_aux]
+
+theorem shiftTri_shiftTri_aux (p q : Pt) (L : List (RV × RV × RV)) :
+    (L.map (shiftTri q)).map (shiftTri p) = L.map (shiftTri (padd p q)) := by
+  rw [List.map_map]; apply List.map_congr_left; intro t _
+  simp only [Function.comp, shiftTri, shiftRV_shiftRV_aux]
+
+theorem shiftTri_flip_aux (p : Pt) (L : List (RV × RV × RV)) :
+    (L.map flipTri).map (shiftTri p) = (L.map (shiftTri p)).map flipTri := by
+  rw [List.map_map, List.map_map]; apply List.map_congr_left; intro t _; rfl
+
+theorem gidTri_eq_aux (p : Pt) (L : List (Nat × Nat × Nat)) : L.map (gidTri p) = (L.map ridTri).map (shiftTri p) := by
+  rw [List.map_map]; apply List.map_congr_left; intro t _; rfl
+
+/-- the cap the cell at `p` puts on its high face ⟂`a` is the canonical cap of the lattice face at `p + e_a` -/
+theorem cap_high_aux (p : Pt) (a : Nat) (ha : a < 3) :
+    detSum τ ((capTrisFace (cellBits s p) a 1).map (gidTri p)) = Kap s τ a (padd p (unit a)) := by
+  have T := Tab.table_cap_canonical (s (padd p (cornerOff 0))) (s (padd p (cornerOff 1))) (s (padd p (cornerOff 2)))
+    (s (padd p (cornerOff 3))) (s (padd p (cornerOff 4))) (s (padd p (cornerOff 5))) (s (padd p (cornerOff 6)))
+    (s (padd p (cornerOff 7)))
+  rw [List.all_eq_true] at T
+  have Ta := T a (List.mem_range.mpr ha)
+  simp only [Bool.and_eq_true, List.isPerm_iff] at Ta
+  change ((capTrisFace (cellBits s p) a 1).map ridTri).Perm ((capCanon a (faceBits (cellBits s p) a 1)).map (shiftTri (unit a))) ∧ _ at Ta
+  rw [gidTri_eq_aux, detSum_perm_aux τ (Ta.1.map (shiftTri p)), shiftTri_shiftTri_aux, faceBits_high_aux s p a ha]
+  rfl
+
+/-- … and the cap on its low face is the FLIPPED canonical cap of the lattice face at `p` -/
+theorem cap_low_aux (p : Pt) (a : Nat) (ha : a < 3) :
+    detSum τ ((capTrisFace (cellBits s p) a 0).map (gidTri p)) = - Kap s τ a p := by
+  have T := Tab.table_cap_canonical (s (padd p (cornerOff 0))) (s (padd p (cornerOff 1))) (s (padd p (cornerOff 2)))
+    (s (padd p (cornerOff 3))) (s (padd p (cornerOff 4))) (s (padd p (cornerOff 5))) (s (padd p (cornerOff 6)))
+    (s (padd p (cornerOff 7)))
+  rw [List.all_eq_true] at T
+  have Ta := T a (List.mem_range.mpr ha)
+  simp only [Bool.and_eq_true, List.isPerm_iff] at Ta
+  change _ ∧ ((capTrisFace (cellBits s p) a 0).map ridTri).Perm ((capCanon a (faceBits (cellBits s p) a 0)).map flipTri) at Ta
+  rw [gidTri_eq_aux, detSum_perm_aux τ (Ta.2.map (shiftTri p)), shiftTri_flip_aux, detSum_flip_aux, faceBits_low_aux s p a ha]
+  rfl
+
+/-- the table triangles of the cell, in global coordinates, are the cell's part of the marched surface -/
+theorem cell_tris_sum_aux (p : Pt) :
+    detSum τ ((caseTris (caseIndex (cellBits s p))).map (gidTri p)) = volume6 (posL τ) ⟨0, 0, 0⟩ (cellTris s p) := by
+  have hl := table_tri_edges_lt (s (padd p (cornerOff 0))) (s (padd p (cornerOff 1))) (s (padd p (cornerOff 2)))
+    (s (padd p (cornerOff 3))) (s (padd p (cornerOff 4))) (s (padd p (cornerOff 5))) (s (padd p (cornerOff 6)))
+    (s (padd p (cornerOff 7)))
+  rw [List.all_eq_true] at hl
+  have hz : ∀ v : V3 ℝ, V3.Sub v ⟨0, 0, 0⟩ = v := by intro v; cases v; simp [V3.Sub]
+  simp only [detSum, volume6, cellTris, List.map_map, hz]
+  congr 1
+  apply List.map_congr_left
+  intro t ht
+  have := hl t ht
+  simp only [decide_eq_true_eq] at this
+  simp only [Function.comp, gidTri, gid, rid, this.1, this.2.1, this.2.2, if_true, shiftRV, gpos]
+
+/-- **Per-cell identity.**  The volume of the cell's closed polyhedron = its part of the marched surface + the canonical-cap
+    sums of its three high lattice faces − those of its three low lattice faces -/
+theorem cell_identity_aux (p : Pt) :
+    vol6R (polyTris (cellBits s p)) (localPar τ p) =
+      volume6 (posL τ) ⟨0, 0, 0⟩ (cellTris s p)
+        + ((Kap s τ 0 (padd p (unit 0)) - Kap s τ 0 p) + (Kap s τ 1 (padd p (unit 1)) - Kap s τ 1 p)
+          + (Kap s τ 2 (padd p (unit 2)) - Kap s τ 2 p)) := by
+  have h := cell_poly_sum_aux τ p (s (padd p (cornerOff 0))) (s (padd p (cornerOff 1))) (s (padd p (cornerOff 2)))
+    (s (padd p (cornerOff 3))) (s (padd p (cornerOff 4))) (s (padd p (cornerOff 5))) (s (padd p (cornerOff 6)))
+    (s (padd p (cornerOff 7)))
+  change detSum τ ((polyTris (cellBits s p)).map (gidTri p)) = vol6R (polyTris (cellBits s p)) (localPar τ p) at h
+  rw [← h]
+  simp only [polyTris, capTris, List.map_append, detSum_append_aux, cell_tris_sum_aux,
+    cap_high_aux s τ p 0 (by decide), cap_high_aux s τ p 1 (by decide), cap_high_aux s τ p 2 (by decide),
+    cap_low_aux s τ p 0 (by decide), cap_low_aux s τ p 1 (by decide), cap_low_aux s τ p 2 (by decide)]
+  ring
+
+theorem sum_flatMap_range_aux {β : Type} (n : Nat) (f : Nat → List β) (g : β → ℝ) :
+    (((List.range n).flatMap f).map g).sum = ∑ i ∈ Finset.range n, ((f i).map g).sum := by
+  induction n with
+  | zero => simp
+  | succ n ih =>
+    rw [List.range_succ, List.flatMap_append, List.map_append, List.sum_append, ih, Finset.sum_range_succ]
+    simp
+
+theorem boxTris_eq_aux (o : Pt) (nx ny nz : Nat) :
+    boxTris s o nx ny nz =
+      (List.range nx).flatMap fun i => (List.range ny).flatMap fun j => (List.range nz).flatMap fun k =>
+        cellTris s (cellAt o i j k) := by
+  simp only [boxTris, boxCells, List.flatMap_assoc, List.flatMap_map, cellAt]
+
+theorem volume_box_aux (o : Pt) (nx ny nz : Nat) :
+    volume6 (posL τ) ⟨0, 0, 0⟩ (boxTris s o nx ny nz) =
+      ∑ i ∈ Finset.range nx, ∑ j ∈ Finset.range ny, ∑ k ∈ Finset.range nz,
+        volume6 (posL τ) ⟨0, 0, 0⟩ (cellTris s (cellAt o i j k)) := by
+  unfold volume6
+  rw [boxTris_eq_aux, sum_flatMap_range_aux]
+  refine Finset.sum_congr rfl fun i _ => ?_
+  rw [sum_flatMap_range_aux]
+  refine Finset.sum_congr rfl fun j _ => ?_
+  rw [sum_flatMap_range_aux]
+
+theorem lfb0_boundary_aux {o : Pt} {nx ny nz : Nat} (hbd : BoundaryOutside s o nx ny nz) (i j k : Nat)
+    (hi : i = 0 ∨ i = nx) (hj : j < ny) (hk : k < nz) :
+    latticeFaceBits s (cellAt o i j k) 0 = [false, false, false, false] := by
+  simp only [latticeFaceBits, planePts, List.map, embed, cellAt, padd]
+  simp only [List.cons.injEq, and_true]
+  refine ⟨?_, ?_, ?_, ?_⟩ <;> (apply hbd <;> simp <;> omega)
+
+theorem lfb1_boundary_aux {o : Pt} {nx ny nz : Nat} (hbd : BoundaryOutside s o nx ny nz) (i j k : Nat)
+    (hi : i < nx) (hj : j = 0 ∨ j = ny) (hk : k < nz) :
+    latticeFaceBits s (cellAt o i j k) 1 = [false, false, false, false] := by
+  simp only [latticeFaceBits, planePts, List.map, embed, cellAt, padd]
+  simp only [List.cons.injEq, and_true]
+  refine ⟨?_, ?_, ?_, ?_⟩ <;> (apply hbd <;> simp <;> omega)
+
+theorem lfb2_boundary_aux {o : Pt} {nx ny nz : Nat} (hbd : BoundaryOutside s o nx ny nz) (i j k : Nat)
+    (hi : i < nx) (hj : j < ny) (hk : k = 0 ∨ k = nz) :
+    latticeFaceBits s (cellAt o i j k) 2 = [false, false, false, false] := by
+  simp only [latticeFaceBits, planePts, List.map, embed, cellAt, padd]
+  simp only [List.cons.injEq, and_true]
+  refine ⟨?_, ?_, ?_, ?_⟩ <;> (apply hbd <;> simp <;> omega)
+
+theorem Kap_zero_aux (a : Nat) (ha : a < 3) (q : Pt) (h : latticeFaceBits s q a = [false, false, false, false]) :
+    Kap s τ a q = 0 := by
+  have hc := Tab.table_cap_canon_empty
+  unfold Kap; rw [h]
+  interval_cases a
+  · rw [hc.1]; simp [detSum]
+  · rw [hc.2.1]; simp [detSum]
+  · rw [hc.2.2]; simp [detSum]
+
+/-- the canonical-cap sums telescope over the box and vanish on its boundary faces -/
+theorem caps_telescope_aux {o : Pt} {nx ny nz : Nat} (hbd : BoundaryOutside s o nx ny nz) :
+    ∑ i ∈ Finset.range nx, ∑ j ∈ Finset.range ny, ∑ k ∈ Finset.range nz,
+      ((Kap s τ 0 (padd (cellAt o i j k) (unit 0)) - Kap s τ 0 (cellAt o i j k))
+        + (Kap s τ 1 (padd (cellAt o i j k) (unit 1)) - Kap s τ 1 (cellAt o i j k))
+        + (Kap s τ 2 (padd (cellAt o i j k) (unit 2)) - Kap s τ 2 (cellAt o i j k))) = 0 := by
+  simp only [cellAt_succ0_aux, cellAt_succ1_aux, cellAt_succ2_aux, Finset.sum_add_distrib]
+  have h0 : ∑ i ∈ Finset.range nx, ∑ j ∈ Finset.range ny, ∑ k ∈ Finset.range nz,
+      (Kap s τ 0 (cellAt o (i+1) j k) - Kap s τ 0 (cellAt o i j k)) = 0 := by
+    rw [Finset.sum_comm]
+    refine Finset.sum_eq_zero fun j hj => ?_
+    rw [Finset.sum_comm]
+    refine Finset.sum_eq_zero fun k hk => ?_
+    rw [Finset.sum_range_sub (fun i => Kap s τ 0 (cellAt o i j k))]
+    rw [Kap_zero_aux s τ 0 (by decide) _ (lfb0_boundary_aux s hbd nx j k (Or.inr rfl) (Finset.mem_range.mp hj) (Finset.mem_range.mp hk)),
+        Kap_zero_aux s τ 0 (by decide) _ (lfb0_boundary_aux s hbd 0 j k (Or.inl rfl) (Finset.mem_range.mp hj) (Finset.mem_range.mp hk))]
+    simp
+  have h1 : ∑ i ∈ Finset.range nx, ∑ j ∈ Finset.range ny, ∑ k ∈ Finset.range nz,
+      (Kap s τ 1 (cellAt o i (j+1) k) - Kap s τ 1 (cellAt o i j k)) = 0 := by
+    refine Finset.sum_eq_zero fun i hi => ?_
+    rw [Finset.sum_comm]
+    refine Finset.sum_eq_zero fun k hk => ?_
+    rw [Finset.sum_range_sub (fun j => Kap s τ 1 (cellAt o i j k))]
+    rw [Kap_zero_aux s τ 1 (by decide) _ (lfb1_boundary_aux s hbd i ny k (Finset.mem_range.mp hi) (Or.inr rfl) (Finset.mem_range.mp hk)),
+        Kap_zero_aux s τ 1 (by decide) _ (lfb1_boundary_aux s hbd i 0 k (Finset.mem_range.mp hi) (Or.inl rfl) (Finset.mem_range.mp hk))]
+    simp
+  have h2 : ∑ i ∈ Finset.range nx, ∑ j ∈ Finset.range ny, ∑ k ∈ Finset.range nz,
+      (Kap s τ 2 (cellAt o i j (k+1)) - Kap s τ 2 (cellAt o i j k)) = 0 := by
+    refine Finset.sum_eq_zero fun i hi => ?_
+    refine Finset.sum_eq_zero fun j hj => ?_
+    rw [Finset.sum_range_sub (fun k => Kap s τ 2 (cellAt o i j k))]
+    rw [Kap_zero_aux s τ 2 (by decide) _ (lfb2_boundary_aux s hbd i j nz (Finset.mem_range.mp hi) (Finset.mem_range.mp hj) (Or.inr rfl)),
+        Kap_zero_aux s τ 2 (by decide) _ (lfb2_boundary_aux s hbd i j 0 (Finset.mem_range.mp hi) (Finset.mem_range.mp hj) (Or.inl rfl))]
+    simp
+  rw [h0, h1, h2]; simp
+
+/-- **The volume enclosed by the marched surface is the sum of the volumes of the cell solids.** -/
+theorem volume_box_eq_cells {o : Pt} {nx ny nz : Nat} (hbd : BoundaryOutside s o nx ny nz) :
+    volume6 (posL τ) ⟨0, 0, 0⟩ (boxTris s o nx ny nz) =
+      ∑ i ∈ Finset.range nx, ∑ j ∈ Finset.range ny, ∑ k ∈ Finset.range nz,
+        vol6R (solidTris (cellBits s (cellAt o i j k))) (localPar τ (cellAt o i j k)) := by
+  have hcell : ∀ p, vol6R (solidTris (cellBits s p)) (localPar τ p) =
+      volume6 (posL τ) ⟨0, 0, 0⟩ (cellTris s p)
+        + ((Kap s τ 0 (padd p (unit 0)) - Kap s τ 0 p) + (Kap s τ 1 (padd p (unit 1)) - Kap s τ 1 p)
+          + (Kap s τ 2 (padd p (unit 2)) - Kap s τ 2 p)) := by
+    intro p
+    rw [← cell_identity_aux]
+    exact (poly_volume_eq_solid (s (padd p (cornerOff 0))) (s (padd p (cornerOff 1))) (s (padd p (cornerOff 2)))
+      (s (padd p (cornerOff 3))) (s (padd p (cornerOff 4))) (s (padd p (cornerOff 5))) (s (padd p (cornerOff 6)))
+      (s (padd p (cornerOff 7))) (localPar τ p)).symm
+  have hT := caps_telescope_aux s τ hbd
+  simp only [Finset.sum_add_distrib] at hT
+  simp only [hcell, Finset.sum_add_distrib]
+  rw [volume_box_aux]
+  linarith
+
+/-- **The enclosed volume is non-negative**: box with outside boundary layer, any sign pattern, all interpolation parameters
+    in `[0, 1]` -/
+theorem march_volume_nonneg {o : Pt} {nx ny nz : Nat} (hbd : BoundaryOutside s o nx ny nz)
+    (hτ : ∀ l, 0 ≤ τ l ∧ τ l ≤ 1) : 0 ≤ volume6 (posL τ) ⟨0, 0, 0⟩ (boxTris s o nx ny nz) := by
+  rw [volume_box_eq_cells s τ hbd]
+  refine Finset.sum_nonneg fun i _ => Finset.sum_nonneg fun j _ => Finset.sum_nonneg fun k _ => ?_
+  exact cell_volume_nonneg _ _ _ _ _ _ _ _ _ (fun e _ => hτ _)
+
+end boxvol
+
+theorem cellTris_nil_aux (s : Pt → Bool) (p : Pt) (h : ∀ i, i < 8 → s (padd p (cornerOff i)) = false) : cellTris s p = [] := by
+  have e : cellBits s p = [false, false, false, false, false, false, false, false] := by
+    simp only [cellBits, h 0 (by decide), h 1 (by decide), h 2 (by decide), h 3 (by decide), h 4 (by decide),
+      h 5 (by decide), h 6 (by decide), h 7 (by decide)]
+  have z : caseTris (caseIndex [false, false, false, false, false, false, false, false]) = [] := by decide
+  simp only [cellTris, e, z, List.map_nil]
+
+/-- **march_volume_positive** — the clause "oriented outward so that the enclosed volume is positive", in lattice-edge ids:
+    for every box of cells with outside boundary layer, every sign pattern, and all interpolation parameters strictly
+    between 0 and 1, a non-empty marched surface has positive signed volume. -/
+theorem march_volume_positive : C09_volume_positive_full := by
+  intro s o nx ny nz hbd τ hτ hne
+  rw [volume_box_eq_cells s τ hbd]
+  have hnn : ∀ i j k, 0 ≤ vol6R (solidTris (cellBits s (cellAt o i j k))) (localPar τ (cellAt o i j k)) :=
+    fun i j k => cell_volume_nonneg _ _ _ _ _ _ _ _ _ (fun e _ => ⟨(hτ _).1.le, (hτ _).2.le⟩)
+  -- a cell with a triangle
+  obtain ⟨t, ht⟩ := List.exists_mem_of_ne_nil _ hne
+  rw [boxTris_eq_aux] at ht
+  obtain ⟨i, hi, ht⟩ := List.mem_flatMap.mp ht
+  obtain ⟨j, hj, ht⟩ := List.mem_flatMap.mp ht
+  obtain ⟨k, hk, ht⟩ := List.mem_flatMap.mp ht
+  have hmix : ∃ c, c < 8 ∧ s (padd (cellAt o i j k) (cornerOff c)) = true := by
+    by_contra hc
+    have : cellTris s (cellAt o i j k) = [] := by
+      apply cellTris_nil_aux
+      intro c hc8
+      cases hs : s (padd (cellAt o i j k) (cornerOff c)) with
+      | false => rfl
+      | true => exact absurd ⟨c, hc8, hs⟩ hc
+    rw [this] at ht; cases ht
+  have hpos : 0 < vol6R (solidTris (cellBits s (cellAt o i j k))) (localPar τ (cellAt o i j k)) := by
+    apply cell_volume_pos
+    · obtain ⟨c, hc8, hs⟩ := hmix
+      interval_cases c <;> simp [hs]
+    · intro e _; exact hτ _
+  calc (0 : ℝ) < vol6R (solidTris (cellBits s (cellAt o i j k))) (localPar τ (cellAt o i j k)) := hpos
+    _ ≤ ∑ k' ∈ Finset.range nz, vol6R (solidTris (cellBits s (cellAt o i j k'))) (localPar τ (cellAt o i j k')) :=
+        Finset.single_le_sum (f := fun k' => vol6R (solidTris (cellBits s (cellAt o i j k'))) (localPar τ (cellAt o i j k')))
+          (fun k' _ => hnn i j k') hk
+    _ ≤ ∑ j' ∈ Finset.range ny, ∑ k' ∈ Finset.range nz,
+          vol6R (solidTris (cellBits s (cellAt o i j' k'))) (localPar τ (cellAt o i j' k')) :=
+        Finset.single_le_sum (f := fun j' => ∑ k' ∈ Finset.range nz,
+          vol6R (solidTris (cellBits s (cellAt o i j' k'))) (localPar τ (cellAt o i j' k')))
+          (fun j' _ => Finset.sum_nonneg fun k' _ => hnn i j' k') hj
+    _ ≤ _ :=
+        Finset.single_le_sum (f := fun i' => ∑ j' ∈ Finset.range ny, ∑ k' ∈ Finset.range nz,
+          vol6R (solidTris (cellBits s (cellAt o i' j' k'))) (localPar τ (cellAt o i' j' k')))
+          (fun i' _ => Finset.sum_nonneg fun j' _ => Finset.sum_nonneg fun k' _ => hnn i' j' k') hi
+
+/-! ### transfer through the weld (exact arithmetic: a position-preserving vertex identification) -/
+
+theorem det3_repeat_aux (u v w : V3 ℝ) (h : u = v ∨ u = w ∨ v = w) : det3 u v w = 0 := by
+  rcases h with rfl | rfl | rfl <;> (simp only [det3, V3.Dot, V3.Cross]; ring)
+
+/-- welding with a vertex identification that preserves positions (`posW (φ v) = pos v`) does not change the signed volume:
+    the dropped triangles have two corners at the same position -/
+theorem weld_preserves_volume {V W : Type} [DecidableEq W] (φ : V → W) (pos : V → V3 ℝ) (posW : W → V3 ℝ)
+    (hpos : ∀ v, posW (φ v) = pos v) (o : V3 ℝ) (tris : List (V × V × V)) :
+    volume6 posW o (weldTris φ tris) = volume6 pos o tris := by
+  set M := tris.map fun t => (φ t.1, φ t.2.1, φ t.2.2) with hM
+  have hall : volume6 posW o M = volume6 pos o tris := by
+    simp only [volume6, hM, List.map_map]
+    congr 1; apply List.map_congr_left; intro t _
+    simp only [Function.comp, hpos]
+  have hperm : (M.filter nondegB ++ M.filter (fun t => !nondegB t)).Perm M := List.filter_append_perm nondegB M
+  have hsum : volume6 posW o (M.filter nondegB) + volume6 posW o (M.filter fun t => !nondegB t) = volume6 posW o M := by
+    unfold volume6
+    rw [← List.sum_append, ← List.map_append]
+    exact (hperm.map _).sum_eq
+  have hdrop : volume6 posW o (M.filter fun t => !nondegB t) = 0 := by
+    unfold volume6
+    apply List.sum_eq_zero
+    intro x hx
+    obtain ⟨t, ht, rfl⟩ := List.mem_map.mp hx
+    have hd := (List.mem_filter.mp ht).2
+    simp only [nondegB, Bool.not_and, Bool.not_not, Bool.or_eq_true, beq_iff_eq] at hd
+    apply det3_repeat_aux
+    rcases hd with (h | h) | h
+    · left; rw [h]
+    · right; left; rw [h]
+    · right; right; rw [h]
+  unfold weldTris
+  rw [← hall, ← hsum, hdrop, add_zero]
+
+/-- **Positive volume of the welded mesh** (exact arithmetic): box with outside boundary layer, parameters strictly inside
+    (0,1), non-empty surface, and a weld map that sends every lattice-edge vertex to a mesh vertex at the same position -/
+theorem march_weld_volume_positive {W : Type} [DecidableEq W] (s : Pt → Bool) (o : Pt) (nx ny nz : Nat)
+    (hbd : BoundaryOutside s o nx ny nz) (τ : LEdge → ℝ) (hτ : ∀ l, 0 < τ l ∧ τ l < 1) (hne : boxTris s o nx ny nz ≠ [])
+    (φ : LEdge → W) (posW : W → V3 ℝ) (hpos : ∀ l, posW (φ l) = posL τ l) :
+    0 < volume6 posW ⟨0, 0, 0⟩ (weldTris φ (boxTris s o nx ny nz)) := by
+  rw [weld_preserves_volume φ (posL τ) posW hpos]
+  exact march_volume_positive s o nx ny nz hbd τ hτ hne
+
+/-- non-vacuity: one inside sample in a 2×2×2 box, every vertex at the middle of its edge — the surface is not empty -/
+example : boxTris (fun q => decide (q = ((-1 : Int), (-1 : Int), (-1 : Int)))) (-2, -2, -2) 2 2 2 ≠ [] := by decide
 
 end C09
 end PolyVerif
